@@ -347,7 +347,7 @@ func (s *Sim) Run(watchdog time.Duration) {
 				// no yield for 150 ms: is the baton holder asleep in the Go runtime? (after 5 s
 				// without a yield a holder that is still running counts too: it spins, outside the
 				// simulator's yield points, on something only another goroutine can change)
-				if info, ok := s.holderBlocked(still >= 100); ok {
+				if info, ok := s.holderBlocked(still >= 100 && s.NumTasks() > 1); ok {
 					if still < 5 {
 						continue // must still be so 100 ms later
 					}
